@@ -100,11 +100,17 @@ Step ==
            o == LiftWith(e.s, exp)
            \* FixCom can undo a whole-system translation up to rounding: the position bits change
            \* but the calculator (tolerance 1e-15) regards the configuration as the one it has
-           d == IF e.a = "raise" THEN {}
+           \* (after a restart the remembered results are an empty dictionary that revert_state hands to the calculator;
+           \*  a later evaluation of the SAME, restored configuration may fill it in place: the remembered results are then
+           \*  those of the reference configuration, which is what they are in an uninterrupted run)
+           d0 == IF e.a = "raise" THEN {}
                 ELSE IF e.a = "yield" THEN Diff(exp, o) \ {"presel"}
                 ELSE IF e.a = "call" /\ setup.fixcom /\ o.calcAtoms = Cfg(o) THEN Diff(exp, o) \ {"calcAtoms"}
                 ELSE IF e.a = "end" /\ e.verdict = "acc" /\ AllLabelsEquiv(setup, s, exp, o) THEN Diff(exp, o) \ {"labels"}
                 ELSE Diff(exp, o)
+           d == IF exp.lastRes = NoCfg /\ o.lastRes = o.lastE
+                THEN d0 \ ({"lastRes"} \cup (IF exp.calcRes = NoCfg /\ o.calcRes = o.lastRes /\ o.calcRes = o.calcAtoms THEN {"calcRes"} ELSE {}))
+                ELSE d0
            \* --- protocol: order of the calls the driver makes ------------
            order == CASE e.a = "yield" -> pc = "idle"
                       [] e.a = "call"  -> pc = "yielded" /\ e.name = lastName
